@@ -252,6 +252,64 @@ def dstLoop (W : WFlags) (F : TFlags) (P : Params) (specs : List TSpec) (startup
         dstLoop W F P specs startup Z n (waitFire W Z t adj 4 (r + max 0 (adj - wallAt Z r)))
     | _ => []
 
+/-! ### the decorator's arguments: "startup" / "shutdown" entries
+
+`@time_trigger` takes time specifications and the two words `"startup"` and `"shutdown"`.
+* legacy `TrigInfo.__init__` (l.936–946): a decorator WITHOUT argument list (`args is None`) means "run at startup"; then every
+  `"startup"` / `"shutdown"` string is removed from the list (`while "startup" in lst: … lst.remove("startup")`), setting
+  `run_on_startup` / `run_on_shutdown`; an emptied list becomes `None` (no time trigger).
+* new `TimeTriggerDecorator.validate`: an EMPTY list (bare decorator or `()`) means "run at startup", then the same stripping. -/
+
+inductive TArg where
+  | startup
+  | shutdown
+  | spec (s : TSpec)
+deriving DecidableEq, Repr
+
+/-- `while m in lst: flag = True; lst.remove(m)` – was it there, and what is left -/
+def strip (m : TArg) : List TArg → Bool × List TArg
+  | [] => (false, [])
+  | a :: rest => if a = m then (true, (strip m rest).2) else ((strip m rest).1, a :: (strip m rest).2)
+
+def specsOf : List TArg → List TSpec
+  | [] => []
+  | .spec s :: rest => s :: specsOf rest
+  | _ :: rest => specsOf rest
+
+structure TrigCfg where
+  runOnStartup : Bool
+  runOnShutdown : Bool
+  specs : List TSpec
+deriving DecidableEq, Repr
+
+namespace Legacy
+/-- `none` = bare `@time_trigger` -/
+def normalize : Option (List TArg) → TrigCfg
+  | none => ⟨true, false, []⟩
+  | some args => ⟨(strip .startup args).1, (strip .shutdown (strip .startup args).2).1, specsOf (strip .shutdown (strip .startup args).2).2⟩
+end Legacy
+
+namespace New
+def normalize (args : Option (List TArg)) : TrigCfg :=
+  match args.getD [] with
+  | [] => ⟨true, false, []⟩
+  | a :: rest => ⟨(strip .startup (a :: rest)).1, (strip .shutdown (strip .startup (a :: rest)).2).1,
+      specsOf (strip .shutdown (strip .startup (a :: rest)).2).2⟩
+end New
+
+/-- one run of the function: at definition, at an instant, at removal -/
+inductive Run where
+  | startup
+  | at (t : Int)
+  | shutdown
+deriving DecidableEq, Repr
+
+/-- all runs of a trigger function that lives from `startup` until it is removed: the startup entry, the instants of the
+    wait-and-fire loop, the shutdown entry -/
+def funcRuns (F : TFlags) (P : Params) (cfg : TrigCfg) (startup : Int) (lat : Nat → Int) (fuel : Nat) : List Run :=
+  (if cfg.runOnStartup then [Run.startup] else []) ++ (timeLoop F P cfg.specs startup lat fuel startup).map Run.at ++
+    (if cfg.runOnShutdown then [Run.shutdown] else [])
+
 /-- one specification alone -/
 def timerNext1 (F : TFlags) (P : Params) (sp : TSpec) (now startup : Int) : Option (Option Int) :=
   (specStep F P now startup ⟨none, none⟩ sp).map (·.next)
